@@ -1,15 +1,16 @@
 #!/bin/bash
 # try_mutant_scratch.sh <patch> <ids...> : apply a patch to a scratch worktree (not /repo) and run checks against it with a separate
-# fact cache; for use while something else is running against /repo.  Evidence files are backed up and restored.
+# fact cache and a separate evidence directory; for use while something else is running against /repo.
+# TAG=<name> selects the scratch worktree /tmp/wt-<name> (default mut) so that several can run side by side.
 set -u
 patch="$1"; shift
-wt=/tmp/wt-mut
+tag=${TAG:-mut}
+wt=/tmp/wt-$tag
 [ -d $wt ] || git -C /repo worktree add -q --detach $wt HEAD
 git -C $wt checkout -q -- . ; git -C $wt apply "$patch" || { echo "patch does not apply"; exit 2; }
-bk=$(mktemp -d); cp -r /verif/evidence/. $bk/ 2>/dev/null
+mkdir -p /tmp/ev-$tag
 for id in "$@"; do
-  VERIF_REPO=$wt VERIF_CACHE=/tmp/cache-mut /verif/check $id --tier quick > /tmp/mut-$id.log 2>&1; rc=$?
-  echo "== $id exit=$rc  $(grep -c VIOLATION /tmp/mut-$id.log) violations"; grep "rule=" /tmp/mut-$id.log | head -4 | cut -c1-300; tail -1 /tmp/mut-$id.log
+  VERIF_EVIDENCE=/tmp/ev-$tag VERIF_REPO=$wt VERIF_CACHE=/tmp/cache-$tag /verif/check $id --tier ${TIER:-quick} > /tmp/$tag-$id.log 2>&1; rc=$?
+  echo "== $id exit=$rc  $(grep -c VIOLATION /tmp/$tag-$id.log) violations"; grep "rule=" /tmp/$tag-$id.log | head -4 | cut -c1-300; tail -1 /tmp/$tag-$id.log
 done
 git -C $wt checkout -q -- .
-rm -rf /verif/evidence; mkdir -p /verif/evidence; cp -r $bk/. /verif/evidence/; rm -rf $bk
